@@ -221,6 +221,30 @@ Proof.
   intros f1 f2. split; [reflexivity|]. intros H1 H2. apply Bcompare_correct; assumption.
 Qed.
 
+(** the infinities are the ends of the order of doubles: every double that is not a NaN lies between them *)
+Theorem ord_double_infinities : forall x : f64, f64_is_nan x = false ->
+  (x <> S754_infinity false -> ord (VFloat x) (VFloat (S754_infinity false)) = inl (Some Lt) /\
+                               ord (VFloat (S754_infinity false)) (VFloat x) = inl (Some Gt)) /\
+  (x <> S754_infinity true -> ord (VFloat (S754_infinity true)) (VFloat x) = inl (Some Lt) /\
+                              ord (VFloat x) (VFloat (S754_infinity true)) = inl (Some Gt)) /\
+  ord (VFloat (S754_infinity false)) (VFloat (S754_infinity false)) = inl (Some Eq) /\
+  ord (VFloat (S754_infinity true)) (VFloat (S754_infinity true)) = inl (Some Eq).
+Proof.
+  intros x Hn. split; [|split; [|split; reflexivity]].
+  - intros Hx. destruct x as [s|s| |s m e]; try discriminate Hn; try (destruct s; split; reflexivity).
+    destruct s; [split; reflexivity|exfalso; apply Hx; reflexivity].
+  - intros Hx. destruct x as [s|s| |s m e]; try discriminate Hn; try (destruct s; split; reflexivity).
+    destruct s; [exfalso; apply Hx; reflexivity|split; reflexivity].
+Qed.
+
+Corollary lt_infinities : forall x : f64, f64_is_nan x = false -> x <> S754_infinity false -> x <> S754_infinity true ->
+  lt (VFloat (S754_infinity true)) (VFloat x) = VBool true /\ lt (VFloat x) (VFloat (S754_infinity false)) = VBool true /\
+  gt (VFloat x) (VFloat (S754_infinity false)) = VBool false /\ lt (VFloat x) (VFloat (S754_infinity true)) = VBool false.
+Proof.
+  intros x Hn H1 H2. destruct (ord_double_infinities x Hn) as ((A & B) & (C & D) & _); auto.
+  unfold lt, gt, cmp_with, error_prop_or. cbn [is_err]. rewrite A, C, D. repeat split; reflexivity.
+Qed.
+
 (* ---- sort / min / max --------------------------------------------------- *)
 
 Lemma insert_stable_perm x : forall l, Permutation (x :: l) (insert_stable x l).
